@@ -46,7 +46,10 @@ CurPairs == PairsOf(Cur1 \o Cur0) \cup PairsOf(Cur2 \o Cur0)    \* (unordered pa
 \* those lists (v2: every contract also contributes its tax, a function of renter + host value).  For each listed member m the
 \* extreme is  "rest": m := the largest value for which the pre-checked sum is still <= 2^128-1  (2^128-1 minus everything else
 \* the pre-check counts), and that value -1 and +1.  With "rest" the pre-check passes and ANY later sum that includes something
-\* the pre-check leaves out (parent values, rollovers on the input side, claim outputs, taxes, fees, payouts) overflows.
+\* the pre-check leaves out (parent values, rollovers on the input side, claim outputs, taxes, fees, payouts) overflows -- provided
+\* what is left out exceeds the "rest" that is also in the later sum.  A balanced transaction keeps the rest large, therefore two
+\* more variants first set EVERY OTHER pre-checked member to 1 (the smallest value the minimum-value rules allow) or to 0, and
+\* then take the complement: the pre-check passes with a rest of a few hastings, and any genuine parent value tips a later sum over.
 PreCheck1 == << <<1, "sco.val", "sco">>, <<1, "fc.pay", "fc">>, <<1, "fc.vo.val", "fc">>, <<1, "fc.mo.val", "fc">>, <<1, "rev.vo.val", "rev">>, <<1, "rev.mo.val", "rev">> >>
 PreCheck2 == << <<2, "fee", "">>, <<2, "sco.val", "sco">>, <<2, "fc.r", "fc">>, <<2, "fc.h", "fc">>, <<2, "fc.mh", "fc">>, <<2, "fc.coll", "fc">>,
                 <<2, "rev.r", "rev">>, <<2, "rev.h", "rev">>, <<2, "rev.mh", "rev">>, <<2, "rev.coll", "rev">>,
@@ -54,7 +57,19 @@ PreCheck2 == << <<2, "fee", "">>, <<2, "sco.val", "sco">>, <<2, "fc.r", "fc">>, 
                 <<2, "ren.nc.r", "res:renew">>, <<2, "ren.nc.h", "res:renew">>, <<2, "ren.nc.mh", "res:renew">>, <<2, "ren.nc.coll", "res:renew">> >>
 \* members the v1 pre-check leaves out but validateSiacoins adds with a check of its own: the same margin from their side
 NotPreChecked1 == << <<1, "fee", "">> >>
-ComplementCat == {E("complement", f, x) : f \in Range(PreCheck1 \o PreCheck2 \o NotPreChecked1), x \in {"rest-1", "rest", "rest+1"}}
+ComplementCat == {E("complement", f, x) : f \in Range(PreCheck1 \o PreCheck2 \o NotPreChecked1), x \in {"rest-1", "rest", "rest+1", "rest,others=1", "rest,others=0"}}
+
+\* ---- wraps: sums formed in 64-bit arithmetic ---------------------------------------------------------------------------------
+\* Siafund input and output values are added as uint64 (validateSiafunds, validateV2Siafunds): a PAIR (x, 2^64 - x + honest)
+\* wraps to the honest total, so the sums balance while one value is enormous; whatever is later computed from a single value
+\* (the siafund claim: pool share x value) sees the enormous one.  U64Sums are the members summed that way (no other uint64 sum
+\* of member values exists in validation: weights are sums of encoded lengths).  The second member of the pair is the same
+\* member's second entry (the harness adds one where the transaction has a single entry: for inputs a second parent created
+\* in the same block).  Mutants of this family, and of the other siafund families, also run on the state with its siafund pool
+\* raised to 1000 SC ("rich pool"): the model's amounts are small for TLC's sake, every real chain has a pool of that order,
+\* and the pool enters validation only through claim arithmetic.
+U64Sums == << <<1, "sfo.val", "sfo">>, <<1, "supp.sfi.val", "sfi">>, <<2, "sfo.val", "sfo">>, <<2, "sfi.parent.val", "sfi">> >>
+WrapCat == {E2("wrap", f, x, f, "2^64-x+honest") : f \in Range(U64Sums), x \in {"1", "2^32", "2^63", "2^64-2", "2^64-1"}}
 
 \* ---- Merkle proofs and leaf indices of elements, storage proofs ---------------------------
 Elems == << <<2, "sci.parent", "sci">>, <<2, "sfi.parent", "sfi">>, <<2, "rev.parent", "rev">>, <<2, "res.parent", "res">>, <<2, "res.proofindex", "res:proof">>,
@@ -66,7 +81,7 @@ ProofCat == {E("proof", f, x) : f \in Range(Proofs), x \in Range(ProofVals)} \cu
 
 \* ---- v1 signatures: covered fields, key indices, unlock conditions ---------------------------
 CFLists == <<"SiacoinInputs", "SiacoinOutputs", "FileContracts", "FileContractRevisions", "StorageProofs", "SiafundInputs", "SiafundOutputs", "MinerFees", "ArbitraryData", "Signatures">>
-CFVals == <<"len", "len+1", "2^63", "2^64-1", "dup", "unsorted", "16000x0", "all+len">>
+CFVals == <<"len", "len+1", "2^63", "2^64-1", "dup", "unsorted", "12000x0", "all+len">>
 SigNeed == "sig"      \* a v1 transaction with at least one signature
 CoveredCat == {[fam |-> "covered", ver |-> 1, t |-> l, need |-> SigNeed, x |-> x, t2 |-> w, need2 |-> "", x2 |-> ""] : l \in Range(CFLists), x \in Range(CFVals), w \in {"whole", "partial"}}
 SigCat == {E("sig", <<1, "PublicKeyIndex", SigNeed>>, x) : x \in {"len", "1", "2^63", "2^64-1"}} \cup
@@ -155,7 +170,7 @@ DecodedCat == {E("decoded", <<2, "json", "">>, x) : x \in {"{\"siacoinInputs\":[
               {E("decoded", <<1, "json", "">>, x) : x \in {"{\"siacoinInputs\":[{}]}", "{\"siafundInputs\":[{}]}", "{\"signatures\":[{}]}", "{\"fileContractRevisions\":[{}]}", "{\"storageProofs\":[{}]}",
                    "{\"fileContracts\":[{}]}", "{\"minerFees\":[\"0\"]}", "{\"arbitraryData\":[null]}", "{\"signatures\":[{\"coveredFields\":{\"signatures\":[0,0,1]}}]}"}}
 
-Catalogue == ComplementCat \cup LifecycleCat \cup ConfuseCat \cup DecodedCat \cup CurSingles \cup CurPairs \cup ProofCat \cup CoveredCat \cup SigCat \cup ParentCat \cup SuppCat \cup PolicyCat \cup ResCat \cup EraCat \cup SizeCat \cup WinCat \cup ShapeCat
+Catalogue == WrapCat \cup ComplementCat \cup LifecycleCat \cup ConfuseCat \cup DecodedCat \cup CurSingles \cup CurPairs \cup ProofCat \cup CoveredCat \cup SigCat \cup ParentCat \cup SuppCat \cup PolicyCat \cup ResCat \cup EraCat \cup SizeCat \cup WinCat \cup ShapeCat
 Families == {e.fam : e \in Catalogue}
 
 VARIABLE step
@@ -168,5 +183,5 @@ Spec == Init /\ [][Next]_step
 \* every entry is well formed: a known version, a member, an extreme; exactly the pair entries name a second member and extreme
 ASSUME WellFormed == \A e \in Catalogue : /\ e.ver \in {0, 1, 2} /\ e.t # "" /\ e.x # ""
                                    /\ (e.fam = "cur2" => e.t2 # "" /\ e.x2 # "")
-                                   /\ (e.fam \notin {"cur2", "covered", "lifecycle"} => e.t2 = "" /\ e.x2 = "")
+                                   /\ (e.fam \notin {"cur2", "covered", "lifecycle", "wrap"} => e.t2 = "" /\ e.x2 = "")
 =============================================================================
